@@ -111,7 +111,7 @@ func init() { register(theC09) }
 func (*c09) ID() string       { return "C09" }
 func (*c09) New() interface{} { return &c09Case{} }
 func (*c09) Rule() string {
-	return "fixed workload family (6 writer scripts x wc{0,1,2,4}; 6 reader histories x 3 files x rd{1,2,4} x {no cache, LRU(2)}; index.NewChunkReader + reuse of the reader x 2 files x rd{1,2}; bam.Writer and bam.Reader workloads, the latter with a header of two members and several underlying reads); each workload is first run fault-free to count its underlying Write/Read/Seek calls N, then EVERY call index k<N+1 x fault kind {error without data, error after partial data} x {transient, persistent} is enumerated (exhaustive axis) and re-run under S seeded schedules with disk delays (quick S=6, thorough: cycling until the time budget ends); after the first error the client keeps using the API (remaining ops, Wait, Close). non-trivial: the fault fired while library goroutines other than the client were alive; distinct = (case, schedule signature)"
+	return "fixed workload family (6 writer scripts x wc{0,1,2,4}; 6 reader histories x 3 files x rd{1,2,4} x {no cache, LRU(2)}; index.NewChunkReader + reuse of the reader x 2 files x rd{1,2}; bam.Iterator over three chunks x rd{1,2}; bam.Writer and bam.Reader workloads, the latter with a header of two members and several underlying reads); each workload is first run fault-free to count its underlying Write/Read/Seek calls N, then EVERY call index k<N+1 x fault kind {error without data, error after partial data} x {transient, persistent} is enumerated (exhaustive axis) and re-run under S seeded schedules with disk delays (quick S=6, thorough: cycling until the time budget ends); after the first error the client keeps using the API (remaining ops, Wait, Close). non-trivial: the fault fired while library goroutines other than the client were alive; distinct = (case, schedule signature)"
 }
 
 func c09WriterScripts() [][]WOp {
@@ -218,6 +218,17 @@ func (p *c09) Init(t *testing.T, seed uint64, tier string) {
 			hh.Comments = []string{string(co)}
 			p.combos = append(p.combos, c09Combo{c: c09Case{Side: "bamreader", Hdr: &hh, Recs: recs, RD: rd, Kind: "read+seek"}})
 		}
+		// the iterator workload wants every chunk several underlying reads
+		// long: records around 4 KiB
+		var bigRecs []RecSpec
+		it := NewTape(97, "C09-bam-iter", 0)
+		for i := 0; i < 9; i++ {
+			bigRecs = append(bigRecs, genRec(it, len(h.Refs), 1, i))
+		}
+		for _, rd := range []int{1, 2} {
+			hh := h
+			p.combos = append(p.combos, c09Combo{c: c09Case{Side: "bamiterator", Hdr: &hh, Recs: bigRecs, RD: rd, Kind: "read+seek"}})
+		}
 	}
 	// fault-free counting runs (all-zero tape: the simplest schedule)
 	for i := range p.combos {
@@ -320,6 +331,8 @@ func (p *c09) exec(x *Exec, c *c09Case) (vd *Verdict, nW, nR, nS int) {
 		return p.execBAMReader(x, c, vd)
 	case "chunkreader":
 		return p.execChunkReader(x, c, vd)
+	case "bamiterator":
+		return p.execBAMIterator(x, c, vd)
 	}
 	return p.execReader(x, c, vd)
 }
@@ -708,6 +721,112 @@ func (p *c09) execChunkReader(x *Exec, c *c09Case, vd *Verdict) (*Verdict, int, 
 	return vd, 0, nR, nS
 }
 
+// execBAMIterator: bam.Iterator over three record chunks (noted in a
+// fault-free pass on a separate simulated file) under every read/seek fault.
+// The records yielded must be a prefix of the records of the chunks, in
+// order; when fewer come back, Error() or Close() must say why - a fault is
+// never the end of a chunk.
+func (p *c09) execBAMIterator(x *Exec, c *c09Case, vd *Verdict) (*Verdict, int, int, int) {
+	img := c.bamImage()
+	clean := &File{X: x, Name: "clean", Data: img}
+	file := &File{X: x, Name: "f", Data: img, MaxDelay: c.Delay}
+	if c.Fault.Op == "read" || c.Fault.Op == "seek" {
+		file.Faults = []Fault{c.Fault}
+	}
+	spans := [][2]int{{1, 2}, {4, 6}, {8, 8}}
+	var want []string
+	for _, sp := range spans {
+		for i := sp[0]; i <= sp[1] && i < len(c.Recs); i++ {
+			want = append(want, c.Recs[i].Name)
+		}
+	}
+	var bad *Violation
+	x.Procs = 2
+	res := x.RunSim("bamiter", estReadSteps(len(img), 0, c.Kind, c.Delay)*6+120*len(c.Recs), func() {
+		// pass 1, fault free: the chunk of every record
+		r1, err := bam.NewReader(clean.As("read+seek"), 1)
+		if err != nil {
+			bad = Mismatch("bam-open", "bam.NewReader on a valid file = %v", err)
+			return
+		}
+		var chunks []bgzf.Chunk
+		for {
+			if _, err := r1.Read(); err != nil {
+				break
+			}
+			chunks = append(chunks, r1.LastChunk())
+		}
+		r1.Close()
+		if len(chunks) != len(c.Recs) {
+			bad = Mismatch("bam-pass1", "sequential pass read %d of %d records", len(chunks), len(c.Recs))
+			return
+		}
+		var list []bgzf.Chunk
+		for _, sp := range spans {
+			if sp[1] < len(chunks) {
+				list = append(list, bgzf.Chunk{Begin: chunks[sp[0]].Begin, End: chunks[sp[1]].End})
+			}
+		}
+		// pass 2 under the fault
+		br, err := bam.NewReader(file.As(c.Kind), c.RD)
+		if err != nil {
+			if len(file.Fired) == 0 {
+				bad = Mismatch("bam-open", "bam.NewReader without fault = %v", err)
+			}
+			return
+		}
+		defer br.Close()
+		it, err := bam.NewIterator(br, list)
+		if err != nil {
+			if len(file.Fired) == 0 {
+				bad = Mismatch("iterator-open", "NewIterator without fault = %v", err)
+			}
+			return
+		}
+		n := 0
+		for it.Next() {
+			name := it.Record().Name
+			if n >= len(want) || name != want[n] {
+				w := "nothing more"
+				if n < len(want) {
+					w = want[n]
+				}
+				bad = Mismatch("iterator-skips", "Iterator record %d is %q, want %s (faults fired: %v, Error() = %v)", n, name, w, file.Fired, it.Error())
+				it.Close()
+				return
+			}
+			n++
+		}
+		ierr, cerr := it.Error(), it.Close()
+		if n < len(want) && ierr == nil && cerr == nil {
+			bad = Mismatch("iterator-fault-swallowed", "Iterator stopped after %d of %d records with Error() = nil and Close() = nil (faults fired: %v)", n, len(want), file.Fired)
+		} else if (ierr != nil || cerr != nil) && len(file.Fired) == 0 {
+			bad = Mismatch("iterator-error", "Iterator failed without a fault: %v / %v", ierr, cerr)
+		}
+	})
+	nR, nS := file.Reads, file.Seeks
+	fired := len(file.Fired) > 0
+	if fired {
+		x.Probe("bamiterator_fault_fired")
+	}
+	if v, inc := StructuralViolation("bamiter", &res); v != nil || inc != "" {
+		vd.V, vd.Inconcl = v, inc
+		return vd, 0, nR, nS
+	}
+	if bad != nil {
+		vd.V = bad
+		return vd, 0, nR, nS
+	}
+	if len(res.LiveLib) > 0 {
+		vd.V = &Violation{Kind: "leak", Class: fmt.Sprintf("leak:bamiterator:%v", describeSites(res.LiveLib)),
+			Msg: fmt.Sprintf("after bam.Reader.Close returned, %d library goroutine(s) remain: %v", len(res.LiveLib), describe(res.LiveLib))}
+		return vd, 0, nR, nS
+	}
+	vd.NonTrivial = fired && res.Goroutines > 1
+	vd.Sample = map[string]interface{}{"side": c.Side, "rd": c.RD, "fault": c.Fault, "fired": file.Fired, "steps": x.Steps, "underlying_reads": nR}
+	return vd, 0, nR, nS
+}
+
 func (p *c09) execBAMReader(x *Exec, c *c09Case, vd *Verdict) (*Verdict, int, int, int) {
 	img := c.bamImage()
 	file := &File{X: x, Name: "f", Data: img, MaxDelay: c.Delay, Chunk: 0}
@@ -775,7 +894,7 @@ func (p *c09) execBAMReader(x *Exec, c *c09Case, vd *Verdict) (*Verdict, int, in
 func (p *c09) Shrinks(ci interface{}) []interface{} {
 	c := ci.(*c09Case)
 	var out []interface{}
-	if c.Side == "bamwriter" || c.Side == "bamreader" {
+	if c.Side == "bamwriter" || c.Side == "bamreader" || c.Side == "bamiterator" {
 		for i := range c.Recs {
 			n := *c
 			n.Recs = append(append([]RecSpec(nil), c.Recs[:i]...), c.Recs[i+1:]...)
